@@ -290,7 +290,7 @@ def summarize(o):
 # =========================================================================== C01
 class C01(PropBase):
     pid = "C01"
-    stated_not_proved = ["C01_restart_identity end to end: obs (open (image_after_drop st)) = obs st for every history. Proved layers: live = replay of the logged entries (GhostLog), suffix simulation and coverage => equality (ReplaySpec), codec round trip (RecordProofs), stream round trip (StreamProofs). Missing glue: the files as one stream (FileStream.v pending) and the GC coverage invariant (every retained record's entry starts in a file >= the first kept file; every empty queue is re-recorded before files are unlinked). Decided meanwhile by the correspondence on restart histories and the before/after oracle."]
+    stated_not_proved = ["nothing essential: C01_restart_identity / C01_history_spec are proved end to end for histories from a fresh directory under hist_ok (well-formed arguments, stream below 2^64 files); directories that did not start fresh (numbering gaps, pre-existing foreign WAL-named files) and u64 overflow of positions are outside the theorem and covered by the correspondence and the oracle"]
     prefixes = ("out", "ev", "q", "r", "lr", "ls")
     policies = ["af", "as", "no", "dif", "d0s"]
     rule = ("HistGen histories (1-4 queues, cursor-aimed payload lengths, roll-over, truncation-driven GC, delete and "
